@@ -101,6 +101,7 @@ TABLE = [
     (r"^<core::ptr::non_null::NonNull<T> as core::convert::From<&(mut )?T>>::from$", NEUTRAL, "NonNull from a reference"),
     (r"^<core::ptr::non_null::NonNull<\[T\]>>::\w+$", NEUTRAL, "NonNull slice op"),
     (r"^core::ptr::(addr_eq|eq|null|null_mut|slice_from_raw_parts|slice_from_raw_parts_mut|from_ref|from_mut|without_provenance|without_provenance_mut|dangling|dangling_mut|metadata|from_raw_parts|from_raw_parts_mut)$", NEUTRAL, "pointer construction/comparison"),
+    (r"^core::(ptr|intrinsics)::write_bytes$", NEUTRAL, "fills memory with a byte pattern: creates and destroys no value (what may be overwritten is R-GATE's / R-PAYLOAD-GAP's question)"),
     (r"^<\[T\]>::(len|as_ptr|as_mut_ptr|is_empty|as_ptr_range|as_mut_ptr_range)$", NEUTRAL, "slice metadata"),
     (r"^<str>::(as_bytes|len|as_ptr|is_empty)$", NEUTRAL, "str metadata"),
     (r"^<alloc::vec::Vec<T, A>>::(as_mut_ptr|as_ptr|len|set_len|capacity|is_empty)$", NEUTRAL, "Vec metadata (set_len changes what the Vec will drop; see C06)"),
